@@ -335,6 +335,13 @@ def check (ps : PState) (evLine : String) (obs : List String) (fault : Option St
         | some c => [c]
         | none => []
       if got != want then fs := fs ++ [s!"C06 retransmitted request p{peer}-{seq} was answered differently from the first copy"]
+    -- C08: a Heartbeat Request and an Association Setup Request that names its node are always answered (first copies;
+    -- retransmissions are answered from the cache, C06)
+    if typ == "recv" && !isDup && !specDup then
+      if kind == "hb" && !(sends.any fun s => s.kind == "hbrsp" && s.peer == peer) then
+        fs := fs ++ [s!"C08 the Heartbeat Request from p{peer} seq {seq} was not answered"]
+      if kind == "assoc" && lookD m "node" "-" != "-" && !(sends.any fun s => s.kind == "assocrsp" && s.peer == peer) then
+        fs := fs ++ [s!"C08 the Association Setup Request of node {lookD m "node" "-"} from p{peer} seq {seq} was not answered"]
     -- C08: responses go to the requester with its sequence number
     if typ == "recv" && kind ∈ ["hb", "assoc", "est", "mod", "del"] then
       for s in sends do
